@@ -325,3 +325,211 @@ def check_lane_semantics(rule, kind, root=None):
             rule.bad("x86|%s|%s|sem" % (kind, name), "x86_64 %s %s: %s" % (kind, name, bad[1]), "%s:%d" % (p, b.fn["ln"]))
         else:
             rule.skip("x86_64 %s %s" % (kind, name), bad[1])
+
+
+# ---------------------------------------------------------------------------
+# mask logic: compare / not / and / or (the branch-free forms), as in fv/a64sem.py
+
+Msk, Sel, NANV, _atom, _sel_equal = S64.Msk, S64.Sel, S64.NANV, S64._atom, S64._sel_equal
+
+
+def _as_mask(v):
+    if isinstance(v, Msk):
+        return v
+    if isinstance(v, Bits):
+        if v.v == 0xFFFFFFFF:
+            return Msk(sp.true)
+        if v.v == 0:
+            return Msk(sp.false)
+    return None
+
+
+def _as_value(v):
+    """a lane as a plain value (float constants by their value)"""
+    if isinstance(v, Bits):
+        if v.v == 0:
+            return ZERO
+        return _as_float(v)
+    if isinstance(v, (Msk, Sel)):
+        return None
+    return v
+
+
+class MaskEmu(Emu):
+    def step(self, x):
+        m, ops = x.mnem, x.ops
+        e = M.effect(x)
+        if e.kind == "label":
+            return
+        vex = (m or "").startswith("v")
+        base = m[1:] if vex else m
+        mm = re.fullmatch(r"cmp(eq|lt|le|gt|ge|unord|ord|neq|nlt|nle)(ps|ss)", base or "")
+        if mm and len(ops) == 3 and all(o.kind == "vec" for o in ops):
+            d = ops[0]
+            a, b = self.get(ops[1]), self.get(ops[2])
+            rel = mm.group(1)
+            same = ops[1].name == ops[2].name
+            out = []
+            for p, q in zip(a, b):
+                pv, qv = _as_value(p), _as_value(q)
+                if pv is None or qv is None:
+                    out.append(None)
+                elif rel == "unord" and same:
+                    out.append(Msk(sp.Not(_atom("num", pv))))
+                elif rel == "ord" and same:
+                    out.append(Msk(_atom("num", pv)))
+                elif rel == "eq" and (pv == ZERO or qv == ZERO):
+                    out.append(Msk(_atom("eq0", qv if pv == ZERO else pv)))
+                elif rel == "lt":
+                    out.append(Msk(_atom("gt", qv, pv)))
+                elif rel == "gt":
+                    out.append(Msk(_atom("gt", pv, qv)))
+                else:
+                    out.append(None)
+            if mm.group(2) == "ss":
+                out = [out[0]] + a[1:4]
+            self.put(d, out, vex)
+            return
+        mm = re.fullmatch(r"p?(xor|and|or|andn)(ps|pd|d|q)?", base or "")
+        if mm and len(ops) in (2, 3) and all(o.kind == "vec" for o in ops):
+            op = mm.group(1)
+            d = ops[0]
+            if len(ops) == 3:
+                a, b = self.get(ops[1]), self.get(ops[2])
+                same = ops[1].name == ops[2].name
+            else:
+                a, b = self.get(ops[0]), self.get(ops[1])
+                same = ops[0].name == ops[1].name
+            w = 8 if d.width == 32 else 4
+            if op == "xor" and same:
+                self.put(d, [Bits(0)] * w, vex)
+                return
+            out = []
+            for p, q in zip(a, b):
+                out.append(self._bit(op, p, q))
+            self.put(d, out, vex)
+            return
+        Emu.step(self, x)
+
+    @staticmethod
+    def _bit(op, p, q):
+        if p is None or q is None:
+            return None
+        mp, mq = _as_mask(p), _as_mask(q)
+        if op == "andn":
+            # (~p) & q
+            if mp is None:
+                return None
+            p, mp = Msk(sp.Not(mp.b)), Msk(sp.Not(mp.b))
+            op = "and"
+        if mp is not None and mq is not None:
+            f = {"and": sp.And, "or": sp.Or, "xor": sp.Xor}[op]
+            return Msk(f(mp.b, mq.b))
+        if op == "xor":
+            r = _bitop("xor", p, q) if not isinstance(p, (Msk, Sel)) and not isinstance(q, (Msk, Sel)) else None
+            return r
+        if op == "and":
+            if mq is not None and mp is None:
+                p, q, mp, mq = q, p, mq, mp
+            if mp is not None:
+                if isinstance(q, Sel):
+                    return Sel([(sp.And(mp.b, g), v) for g, v in q.terms])
+                qv = _as_value(q)
+                if qv is None:
+                    return None
+                return ZERO if qv == ZERO else Sel([(mp.b, qv)])
+            r = _bitop("and", p, q) if not isinstance(p, Sel) and not isinstance(q, Sel) else None
+            return r
+
+        def terms(v):
+            if isinstance(v, Sel):
+                return v.terms
+            mv = _as_mask(v)
+            if mv is not None:
+                # all-ones OR-ed into a value: an all-ones word is a NaN ("conveniently")
+                return [] if mv.b == sp.false else [(mv.b, NANV)]
+            vv = _as_value(v)
+            if vv is None:
+                return None
+            return [] if vv == ZERO else [(sp.true, vv)]
+
+        tp, tq = terms(p), terms(q)
+        if tp is None or tq is None:
+            return None
+        return Sel(tp + tq)
+
+
+def check_mask_logic(rule, kind, root=None):
+    """x86_64 twin of a64sem.check_mask_logic for the clauses that are branch-free here"""
+    p = AC.path_of(kind)
+    builders = M.load_builders(p, root)
+    need = NEED[kind]
+    one, mone = sp.Integer(1), sp.Integer(-1)
+    if kind == "interval":
+        return
+    for name in ("build_compare", "build_not", "build_and", "build_or"):
+        b = builders.get(name)
+        if b is None:
+            rule.lost("x86_64 %s %s" % (kind, name))
+            continue
+        ins = [x for x in AC.stream(b, builders) if x.label is None]
+        if any(M.effect(x).kind in ("jmp", "jcc", "call", "cmp", "setcc") for x in ins):
+            continue
+        outp = AC.out_param(b)
+        inputs = [n_ for (n_, ty) in b.params if ty == "u8" and n_ != outp]
+        scen = [("distinct", {})] + [("out = %s" % n_, {"T:%s" % outp: "T:%s" % n_}) for n_ in inputs]
+        verdict = None
+        for desc, alias in scen:
+            assign = {"T:%s" % inputs[0]: list(Lx)}
+            if len(inputs) == 2:
+                assign["T:%s" % inputs[1]] = list(Rx)
+            lit = None
+            for hn, _args, node in b.helper_calls:
+                if hn == "load_imm" and node["args"]:
+                    from . import ast as A_
+
+                    v_ = A_.lit_value(node["args"][0])
+                    if v_ is not None:
+                        lit = struct.unpack("<I", struct.pack("<f", float(v_)))[0]
+            em = MaskEmu(assign, lit)
+            try:
+                for x in ins:
+                    if alias:
+                        x = _copy.deepcopy(x)
+                        for o in x.ops:
+                            if o.kind == "vec" and o.name in alias:
+                                o.name = alias[o.name]
+                    em.step(x)
+            except Unknown as e_:
+                verdict = ("skip", str(e_))
+                break
+            got = em.v.get(alias.get("T:%s" % outp, "T:%s" % outp)) or [None] * N
+            for l in need:
+                k = 0 if kind == "grad_slice" else l
+                a, bq = Lx[k], (Rx[k] if len(inputs) == 2 else None)
+                if name == "build_compare":
+                    want = ZERO if (kind == "grad_slice" and l > 0) else Sel([(_atom("gt", bq, a), mone), (_atom("gt", a, bq), one), (sp.Not(sp.And(_atom("num", a), _atom("num", bq))), NANV)])
+                elif name == "build_not":
+                    want = ZERO if (kind == "grad_slice" and l > 0) else Sel([(_atom("eq0", a), one)])
+                elif name == "build_and":
+                    want = Sel([(_atom("eq0", a), Lx[l]), (sp.Not(_atom("eq0", a)), Rx[l])])
+                else:
+                    want = Sel([(sp.Not(_atom("eq0", a)), Lx[l]), (_atom("eq0", a), Rx[l])])
+                g = got[l]
+                if isinstance(g, Bits):
+                    g = _as_value(g)
+                if g is None or isinstance(g, Msk):
+                    verdict = ("skip", "lane %d of the output is built by instructions outside the modelled subset (%s)" % (l, desc))
+                    break
+                ok, why = _sel_equal(g, want)
+                if not ok:
+                    verdict = ("bad", "lane %d (%s): %s" % (l, desc, why))
+                    break
+            if verdict:
+                break
+        if verdict is None:
+            rule.ok("x86_64 %s %s: mask logic gives the opcode's value in every lane" % (kind, name), file=p, line=b.fn["ln"])
+        elif verdict[0] == "bad":
+            rule.bad("x86|%s|%s|mask" % (kind, name), "x86_64 %s %s: %s" % (kind, name, verdict[1]), "%s:%d" % (p, b.fn["ln"]))
+        else:
+            rule.skip("x86_64 %s %s" % (kind, name), verdict[1])
